@@ -9,6 +9,8 @@ payload it does not reproduce - counted per function), 3 out of fuel.
 Families:
   typed      every function x argument lists drawn from per-type pools of boundary values
   ill-typed  every function x (one argument replaced by a value of every other type | one argument missing | one surplus)
+  random     every function x random arguments (doubles of every magnitude / bit pattern, nested JSON values and damaged JSON texts,
+             date components, digit strings in every radix)
   alias      expression mode through the built-in aliases (abs, fixed, date, year, parseFloat, ...)
   program    whole programs (loops, containers, JSON round trips, date arithmetic, number tables, logging of containers)
 Used by harness/c05.py (quick tier: ~1 700 cases, < 30 s)."""
@@ -193,6 +195,104 @@ def gen_alias(r, tier, sig):
     return cases, meta
 
 
+def _rand_float(r):
+    k = r.random()
+    if k < 0.25:
+        return r.randint(-4000, 4000) / 8.0                           # dyadic, short text
+    if k < 0.5:
+        return round(r.uniform(-1000, 1000), r.randint(0, 6))         # decimal-looking (ties of the decimal text are NOT ties in binary)
+    if k < 0.7:
+        return (r.randint(0, 10 ** 6) + 0.5) / 10 ** r.randint(0, 4)  # near-ties
+    if k < 0.9:
+        import struct
+        return struct.unpack('<d', struct.pack('<Q', r.getrandbits(64)))[0]     # any bit pattern (incl. nan / inf / subnormals)
+    return r.choice([1, -1]) * 10.0 ** r.randint(-20, 25) * r.random()
+
+
+def _rand_json(r, depth, printable):
+    k = r.random()
+    if depth <= 0 or k < 0.45:
+        c = r.randrange(7)
+        if c == 0:
+            return None
+        if c == 1:
+            return r.random() < 0.5
+        if c == 2:
+            return r.randint(-10 ** 6, 10 ** 6) if r.random() < 0.8 else r.randint(-10 ** 25, 10 ** 25)
+        if c == 3:
+            return r.randint(-800, 800) / 16.0 if printable else _rand_float(r)
+        return ''.join(r.choice('ab"\\/\n\t é\u20ac\U0001f600 {}[]:,.0') for _ in range(r.randint(0, 6)))
+    if k < 0.75:
+        return [_rand_json(r, depth - 1, printable) for _ in range(r.randint(0, 4))]
+    return {''.join(r.choice('abké_ ') for _ in range(r.randint(0, 3))): _rand_json(r, depth - 1, printable) for _ in range(r.randint(0, 4))}
+
+
+def _spec_of(v, pool):
+    import math
+    if v is None:
+        return ['null']
+    if isinstance(v, bool):
+        return ['bool', v]
+    if isinstance(v, int):
+        return vint(v)
+    if isinstance(v, float):
+        return ['flt', 'nan'] if math.isnan(v) else vflt(v)
+    if isinstance(v, str):
+        return ['str', v]
+    if isinstance(v, list):
+        return pool.arr([_spec_of(x, pool) for x in v])
+    return pool.obj([[k, _spec_of(x, pool)] for k, x in v.items()])
+
+
+def gen_random(r, tier):
+    """random arguments (doubles of every magnitude and bit pattern, nested JSON values, date components, digit strings)"""
+    import math
+    pool = interp.Pool()
+    n = 22 if tier == 'quick' else 260
+    cases, meta = [], []
+
+    def add(fn, vals):
+        cases.append(call_case(fn, vals))
+        meta.append(('random', fn))
+
+    def fl(x):
+        return ['flt', 'nan'] if math.isnan(x) else vflt(x)
+    for _ in range(n):
+        x = _rand_float(r)
+        add('numberToFixed', [fl(x), vflt(float(r.randint(0, 12))), ['bool', r.random() < 0.5]])
+        add('mathRound', [fl(x), vflt(float(r.randint(0, 8)))])
+        add(r.choice(['mathFloor', 'mathCeil', 'mathAbs', 'mathSign']), [fl(x)])
+        add('mathSqrt', [fl(abs(x))])
+        text = r.choice([repr(x), '%.*e' % (r.randint(0, 20), x), '%.*f' % (r.randint(0, 12), x) if abs(x) < 1e30 else repr(x), ' ' + repr(x) + '\n',
+                         repr(x).replace('e', 'E'), repr(x) + r.choice(['', '0', 'e1', '_', ' 1'])]) if not (math.isnan(x) or math.isinf(x)) else repr(x)
+        add('numberParseFloat', [['str', text]])
+        radix = r.choice([2, 8, 10, 16, 36, r.randint(2, 36)])
+        digs = ''.join(r.choice('0123456789abcdefghijklmnopqrstuvwxyzABCXYZ_'[:max(radix, 2) + r.choice([0, 0, 0, 2])]) for _ in range(r.randint(1, 12)))
+        add('numberParseInt', [['str', r.choice(['', '-', '+', ' ']) + r.choice(['', '', '0x', '0b', '0o', '0X']) + digs], vflt(float(radix))])
+        v = _rand_json(r, 3, True)
+        add('jsonStringify', [_spec_of(v, pool)] + ([r.choice([vflt(1.0), vflt(2.0), vint(3), ['null']])] if r.random() < 0.5 else []))
+        add(r.choice(['stringNew', 'systemLog']), [_spec_of(v if isinstance(v, (list, dict)) else [v], pool)])
+        w = _rand_json(r, 3, False)
+        try:
+            jt = json.dumps(w, ensure_ascii=r.random() < 0.5, indent=r.choice([None, None, 1, 3]), allow_nan=False)
+        except ValueError:
+            jt = json.dumps(w)
+        if r.random() < 0.25 and jt:                                   # damage the text
+            i = r.randrange(len(jt))
+            jt = jt[:i] + r.choice(['', ',', '"', '}', ']', '0', ' ', '\\', 'e', '.', '-']) + jt[i + r.choice([0, 1]):]
+        if not any(0xD800 <= ord(c) <= 0xDFFF for c in jt):
+            add('jsonParse', [['str', jt]])
+        comps = [r.randint(100, 9999) if r.random() < 0.8 else r.choice([99, 100, 9999, 10000]), r.randint(-30, 40), r.randint(-400, 400) if r.random() < 0.7 else r.randint(-10001, 10001),
+                 r.randint(-50, 50), r.randint(-200, 200), r.randint(-5000, 5000), r.randint(-100000, 100000)]
+        add('datetimeNew', [vflt(float(c)) if r.random() < 0.8 else vint(c) for c in comps[:r.randint(3, 7)]])
+        d = D(r.randint(1, 9999), r.randint(1, 12), r.randint(1, 28), r.randint(0, 23), r.randint(0, 59), r.randint(0, 59), r.choice([0, 1000 * r.randint(0, 999), r.randint(0, 999999)]))
+        add(r.choice(['datetimeISOFormat', 'stringNew', 'datetimeMillisecond', 'datetimeYear', 'datetimeDay']), [d])
+        iso = '%04d-%02d-%02dT%02d:%02d:%02d' % (r.randint(1, 9999), r.randint(1, 13), r.randint(1, 31), r.randint(0, 24), r.randint(0, 60), r.randint(0, 60))
+        iso += r.choice(['', '.' + ''.join(r.choice('0123456789') for _ in range(r.randint(1, 7)))]) + r.choice(['Z', '+00:00', '-08:00', '+05:45', '+23:59', '-23:59', '', 'z', '+24:00'])
+        add('datetimeISOParse', [['str', iso if r.random() < 0.85 else iso[:10]]])
+    return cases, meta
+
+
 def programs(r, tier):
     """whole programs over the wider library"""
     out = []
@@ -304,11 +404,12 @@ def run_family(chk, tier, r):
     progs = programs(r, tier)
     pcases = [{'text': text, 'globals': {}, 'max': 5000, 'want_model': True} for _, text in progs]
     pmeta = [('program', tag) for tag, _ in progs]
-    all_cases = cases + pcases + ecases
-    all_meta = meta + pmeta + emeta
+    rcases, rmeta = gen_random(r, tier)
+    all_cases = cases + rcases + pcases + ecases
+    all_meta = meta + rmeta + pmeta + emeta
     env = core.impl_env(TZ_ENV)
     impl = core.run_impl('run_script', all_cases, env=env, shards=min(core.NPROC, 16))
-    n_script = len(cases) + len(pcases)
+    n_script = len(cases) + len(rcases) + len(pcases)
     parsed = core.run_impl('parse_expr', [c['expr_text'] for c in ecases]) if ecases else []
 
     terms, used = [], []
